@@ -47,7 +47,7 @@ where
             algorithm,
             current_limit: Arc::new(AtomicUsize::new(initial_limit)),
             in_flight: Arc::new(AtomicUsize::new(0)),
-            semaphore: Arc::new(Semaphore::new(initial_limit)),
+            semaphore: Arc::new(Semaphore::new(initial_limit.min(Semaphore::MAX_PERMITS))),
         }
     }
 
@@ -122,7 +122,7 @@ where
         let current = self.current_limit.load(Ordering::Relaxed);
         if algorithm_limit > current {
             let diff = algorithm_limit - current;
-            self.semaphore.add_permits(diff);
+            add_permits_saturating(&self.semaphore, diff);
             self.current_limit.store(algorithm_limit, Ordering::Relaxed);
         } else if algorithm_limit < current {
             self.current_limit.store(algorithm_limit, Ordering::Relaxed);
@@ -150,7 +150,7 @@ where
                 let curr = current_limit.load(Ordering::Relaxed);
                 if alg_limit > curr {
                     let diff = alg_limit - curr;
-                    semaphore.add_permits(diff);
+                    add_permits_saturating(&semaphore, diff);
                     current_limit.store(alg_limit, Ordering::Relaxed);
                 } else if alg_limit < curr {
                     current_limit.store(alg_limit, Ordering::Relaxed);
@@ -160,6 +160,13 @@ where
             }),
         }
     }
+}
+
+/// Adds permits without exceeding what a tokio semaphore can hold (it panics beyond that),
+/// as happens with limits close to `usize::MAX`.
+fn add_permits_saturating(semaphore: &Semaphore, n: usize) {
+    let room = Semaphore::MAX_PERMITS.saturating_sub(semaphore.available_permits());
+    semaphore.add_permits(n.min(room));
 }
 
 /// Decrements the in-flight counter when dropped.
